@@ -146,7 +146,8 @@ func (o oChallenge) Unmarshal(b []byte) bool {
 }
 func (o oChallenge) Marshal() []byte { return o.v.Marshal() }
 func (o oChallenge) Fields() string {
-	return fmt.Sprintf("chal type=%04x issuer=%q nonce=%s origin=%q", o.v.TokenType, o.v.IssuerName, hx(o.v.RedemptionNonce), strings.Join(o.v.OriginInfo, ","))
+	// the origin list element by element: "a,b" as one name and as two names are different values
+	return fmt.Sprintf("chal type=%04x issuer=%q nonce=%s origins[%d]=%q", o.v.TokenType, o.v.IssuerName, hx(o.v.RedemptionNonce), len(o.v.OriginInfo), o.v.OriginInfo)
 }
 func (o oChallenge) Hand() []byte {
 	oi := strings.Join(o.v.OriginInfo, ",")
